@@ -909,3 +909,18 @@ def rule_late_binding(repo, col, rels=None):
                               % ','.join(sorted(cap)))
     col.ok(rule, 'biom', '<package>', 'scan', None,
            '%d loops, %d closures over a loop variable' % (n_loops, n_cl))
+
+
+def closure_scoped(rule_fn, rule_ids, roots):
+    """Run a package-wide rule but keep, for this property, only what it
+    says about functions reachable from the property's anchors."""
+    def rule(repo, col):
+        names = {q for (_r, q) in closure(repo, roots)}
+        # nested functions of a reachable function are reachable
+        def pred(f):
+            return f in names or any(f.startswith(n + '.') for n in names)
+        for rid in rule_ids:
+            col.scope[rid] = pred
+        rule_fn(repo, col)
+    rule.__name__ = 'scoped_' + getattr(rule_fn, '__name__', 'rule')
+    return rule
